@@ -14,3 +14,4 @@ open LhasaV.Props.C07
 #print axioms exit_status_iff
 #print axioms handled_members_selected
 #print axioms progress_bar_width
+#print axioms exit_status_cases
